@@ -258,6 +258,16 @@ theorem is_zero_sized_src_eq_model (r : Rect) : RectSrc.is_zero_sized r = r.isZe
   rw [Bool.eq_iff_iff]; simp
 
 theorem Transform_translate_src_eq_model (r : Rect) (d : Pt) : RectSrc.Transform_translate r d = r.translate d := rfl
+theorem Dimensions_bounding_box_src_eq_model (r : Rect) : RectSrc.Dimensions_bounding_box r = r := rfl
+theorem PointsIter_points_src_eq_model (r : Rect) : RectSrc.PointsIter_points r = RectSrc.Points_new r := rfl
+
+/-- **Inventory**: every function of every `impl` of `Rectangle` and of `Points` in the parsed files is translated
+(and proved equal to the model in this directory), except the ones listed here: `translate_mut` returns `&mut Self`
+(outside the translator's subset; the model has no in-place variant). A function ADDED to one of these impls (for
+instance an override of `Iterator::fold` / `nth` / `size_hint` for `Points`, which changes what callers see without
+touching a translated body) appears in `RectSrc.untranslated` and breaks this theorem. -/
+theorem untranslated_pinned :
+    RectSrc.untranslated = [("impl Transform for Rectangle", ["translate_mut"])] := by decide
 
 /-! ### the headline theorems of C16, about the regenerated functions -/
 
